@@ -560,6 +560,9 @@ class C02(Prop):
             if obs['with_len'] != (len(whole).to_bytes(3, 'big') + whole).hex():
                 fails.append({'signature': 'length-header-wrong:' + s['t'], 'what': 'serialize_with_frame_size_header disagrees with len(serialize())'})
         elif case['kind'] == 'dec':
+            if obs['dec'].startswith('HALF-PARSED'):
+                fails.append({'signature': 'decoder-returns-a-half-parsed-frame', 'what': 'the bytes %s make the decoder return a %s object whose fields were never filled in (its parse failed)' % (
+                    case['blob'][:60], obs['dec'].split(' ')[-1])})
             # whatever comes out of the decoder is in the bytes: an ERROR frame carries the code of its bytes 6..10, never a substitute
             if obs['dec'].startswith('ERROR '):
                 blob = bytes.fromhex(case['blob'])
